@@ -148,6 +148,16 @@ CHECKS.update({
     ),
 })
 
+CHECKS.update({
+    "C17": dict(
+        engine="E1+E2 + inotify driver",
+        category="exploration",
+        text="A real Watcher (real inotify descriptor and watches) whose READs are answered by the simulated kernel with generated record batches (names 0..255 bytes, kernel and extra padding, all mask bits, unknown wds, IGNORED/OVERFLOW records, every batching that keeps records whole, empty reads, errors, canaries behind the data) plus a retention plan for yielded events; the yielded sequence must equal the model and every retained event must stay unchanged inside its live allocation.",
+        design_ref="5/C17",
+        technique="property-based testing of a stream decoder against a record model, with allocation-liveness checks on retained references",
+    ),
+})
+
 NOT_YET = {
 }
 
